@@ -26,17 +26,31 @@ DistrictOffice == {TRUE}
 Arrangements(S, n) ==
   UNION {{s \in [1..k -> S] : \A i, j \in 1..k : i # j => s[i] # s[j]} : k \in 1..n}
 
+\* the request is chosen in three stages (estimator / office kind / estimands, then interval levels, then aggregate
+\* levels) so that TLC's simulator can draw a random request from the large universe without enumerating it
+Blank == [estimator |-> "-", district |-> FALSE, ests |-> <<>>, alphas |-> <<>>, aggs |-> <<>>]
 Init ==
+  /\ req = Blank /\ pc = "chooseA" /\ ei = 1 /\ ai = 1 /\ gi = 1
+  /\ gcache = [s \in SlotNames |-> NoWrite] /\ npLast = NoWrite /\ uiv = <<>> /\ frame = {} /\ unitData = <<>>
+  /\ estimates = <<>> /\ cells = <<>> /\ tables = <<>>
+Keep == UNCHANGED <<ei, ai, gi, gcache, npLast, uiv, frame, unitData, estimates, cells, tables>>
+ChooseA ==
+  /\ pc = "chooseA" /\ pc' = "chooseB" /\ Keep
   /\ \E est \in EstimatorSet, d \in DistrictKinds :
      \E es \in (IF est = "bootstrap" THEN {<<"margin">>} ELSE Arrangements(EstimandSet, MaxEsts)) :
-     \E als \in Arrangements(AlphaSet, MaxAlphas), ags \in Arrangements(AggSet, MaxAggs) :
-       req = [estimator |-> est, district |-> d, ests |-> es, alphas |-> als, aggs |-> ags]
-  /\ LInitRest
+       req' = [req EXCEPT !.estimator = est, !.district = d, !.ests = es]
+ChooseB ==
+  /\ pc = "chooseB" /\ pc' = "chooseC" /\ Keep
+  /\ \E als \in Arrangements(AlphaSet, MaxAlphas) : req' = [req EXCEPT !.alphas = als]
+ChooseC ==
+  /\ pc = "chooseC"
+  /\ \E ags \in Arrangements(AggSet, MaxAggs) : LStart([req EXCEPT !.aggs = ags])
 
-Spec == Init /\ [][LNext]_lvars
+Next == ChooseA \/ ChooseB \/ ChooseC \/ LNext
+Spec == Init /\ [][Next]_lvars
 
-CellList == [c \in DOMAIN cells |-> TRUE]
 ExportDone ==
   (Export /\ Done) =>
-     PrintT(<<"SCEN", ToJson([req |-> req, tables |-> tables, ncells |-> Cardinality(DOMAIN cells)])>>)
+     PrintT(<<"SCEN", ToJson([req |-> req, ncells |-> Cardinality(DOMAIN cells),
+                              ncols |-> [l \in DOMAIN tables |-> Len(tables[l])]])>>)
 =============================================================================
